@@ -235,6 +235,46 @@ func embedTemplate(j int, c *MsgCase, desc string) string {
 // embedSink is the callee of the call-param / nested wrappers.
 const embedSink = "/** @param k */\n{template .sink}\n{$k}\n{/template}\n"
 
+// IsSplit: a case of the text|meaning split family (it has its own meaning).
+func (c *MsgCase) IsSplit() bool { return strings.HasPrefix(c.ID, "S") }
+
+// caseMeanings lists the meanings a case is compiled with.
+func caseMeanings(c *MsgCase, withOthers bool) []string {
+	if c.IsSplit() {
+		var ms []string
+		for _, t := range c.Terms {
+			ms = append(ms, t.Meaning)
+		}
+		return ms
+	}
+	if withOthers {
+		return append([]string{""}, OtherMeanings...)
+	}
+	return []string{""}
+}
+
+// ObserveSequential compiles the cases one after the other in the given order
+// (one compile each, alone in a file): a compile history.
+func ObserveSequential(cases []*MsgCase, label string) *Observations {
+	obs := newObservations()
+	for _, c := range cases {
+		for _, mn := range caseMeanings(c, false) {
+			desc := "T|" + c.ID + "|" + label
+			src := IsoSource(c, mn, desc)
+			m, err := ObserveByDesc([]core.File{{Name: "iso.soy", Text: src}}, caseGlobals(c))
+			obs.Compiles++
+			if err != nil {
+				obs.addErr(c.ID, err.Error(), src)
+				continue
+			}
+			if o, ok := m[desc]; ok {
+				obs.add(c.ID, mn, o, label, src)
+			}
+		}
+	}
+	return obs
+}
+
 func wantsMeanings(c *MsgCase, r *rand.Rand) bool {
 	if strings.HasPrefix(c.ID, "X") || len(c.Parts) <= 2 && !strings.HasPrefix(c.ID, "P") {
 		return true
@@ -263,19 +303,16 @@ func ObserveAll(cases []*MsgCase, plan Plan) *Observations {
 	}
 	r := rand.New(rand.NewSource(plan.Seed))
 
-	// isolated
-	for _, c := range cases {
-		c := c
+	// isolated, in a seeded order (what was compiled before must not matter)
+	for _, ci := range r.Perm(len(cases)) {
+		c := cases[ci]
 		reps := plan.Reps(c)
-		meanings := []string{""}
-		if plan.Meanings && wantsMeanings(c, r) {
-			meanings = append(meanings, OtherMeanings...)
-		}
+		meanings := caseMeanings(c, plan.Meanings && wantsMeanings(c, r))
 		globals := caseGlobals(c)
 		jobs <- func() {
 			for mi, mn := range meanings {
 				k := reps
-				if mi > 0 {
+				if mi > 0 && !c.IsSplit() {
 					k = 3
 				}
 				for i := 0; i < k; i++ {
@@ -367,6 +404,9 @@ type ChildPlan struct {
 	Reps       int `json:"reps"`
 	EmbedReps  int `json:"embedReps"`
 	Goroutines int `json:"goroutines"`
+	// History, if set, makes the child compile the cases once each, one after
+	// the other in the order given, and label the observations with it
+	History string `json:"history,omitempty"`
 }
 
 const childEnv = "VERIF_C10_CHILD"
@@ -427,8 +467,13 @@ func init() {
 		fmt.Fprintln(os.Stderr, err)
 		os.Exit(3)
 	}
-	obs := ObserveAll(in.Cases, Plan{Reps: func(*MsgCase) int { return in.Plan.Reps }, EmbedReps: in.Plan.EmbedReps,
-		Seed: in.Seed, ChunkSize: 40, Goroutines: in.Plan.Goroutines})
+	var obs *Observations
+	if in.Plan.History != "" {
+		obs = ObserveSequential(in.Cases, in.Plan.History)
+	} else {
+		obs = ObserveAll(in.Cases, Plan{Reps: func(*MsgCase) int { return in.Plan.Reps }, EmbedReps: in.Plan.EmbedReps,
+			Seed: in.Seed, ChunkSize: 40, Goroutines: in.Plan.Goroutines})
+	}
 	out, err := json.Marshal(obs)
 	if err != nil {
 		fmt.Fprintln(os.Stderr, err)
@@ -436,4 +481,52 @@ func init() {
 	}
 	os.Stdout.Write(out)
 	os.Exit(0)
+}
+
+// RunHistories compiles the cases in fresh processes in several orders
+// (forwards, backwards, shuffled) and each case alone in a process of its own.
+// An id must not depend on what the process compiled before.
+func RunHistories(ctx *core.Ctx, cases []*MsgCase, seed int64) (*Observations, int, error) {
+	type run struct {
+		cases []*MsgCase
+		label string
+	}
+	var runs []run
+	rev := make([]*MsgCase, len(cases))
+	for i, c := range cases {
+		rev[len(cases)-1-i] = c
+	}
+	shuf := make([]*MsgCase, len(cases))
+	for i, k := range rand.New(rand.NewSource(seed)).Perm(len(cases)) {
+		shuf[i] = cases[k]
+	}
+	runs = append(runs, run{cases, "hist-forward"}, run{rev, "hist-backward"}, run{shuf, "hist-shuffled"})
+	for _, c := range cases {
+		runs = append(runs, run{[]*MsgCase{c}, "alone"})
+	}
+	res := newObservations()
+	var mu sync.Mutex
+	var first error
+	sem := make(chan struct{}, 8)
+	var wg sync.WaitGroup
+	for i, r := range runs {
+		wg.Add(1)
+		go func(i int, r run) {
+			defer wg.Done()
+			sem <- struct{}{}
+			defer func() { <-sem }()
+			o, err := RunChild(ctx, r.cases, ChildPlan{History: r.label}, seed*1000+int64(i))
+			mu.Lock()
+			defer mu.Unlock()
+			if err != nil {
+				if first == nil {
+					first = err
+				}
+				return
+			}
+			res.Merge(o, "fresh")
+		}(i, r)
+	}
+	wg.Wait()
+	return res, len(runs), first
 }
